@@ -107,25 +107,33 @@ def observed_edges(graph, by_position=False):
 # --------------------------------------------------------------------------------------------
 # number formatting helpers
 
+def fixed_exact(v: float) -> str:
+    """Shortest fixed-point (no exponent) decimal t with float(t) == v."""
+    for d in range(0, 340):
+        t = f"{v:.{d}f}"
+        if float(t) == v:
+            return t
+    return f"{v:.340f}"
+
+
 def fmt_coord_v3000(v: float, rng: random.Random | None, exotic=False) -> str:
-    """A decimal spelling t of v with float(t) == v exactly."""
-    cands = [repr(float(v))]
-    if float(v) == int(v) and abs(v) < 1e15:
-        cands.append(str(int(v)))
-        cands.append(f"{int(v)}.0000")
+    """A fixed-point decimal spelling t of v with float(t) == v exactly (no exponent notation, no leading '+': the format
+    specification describes coordinates as plain decimal numbers)."""
+    v = float(v)
+    base = fixed_exact(v)
+    cands = [base]
+    if "." not in base:
+        cands.append(base + ".0")
+        cands.append(base + ".0000")
+    else:
+        cands.append(base + "0")
+        cands.append(base + "000")
     s4 = f"{v:.4f}"
     if float(s4) == v:
         cands.append(s4)
     s6 = f"{v:.6f}"
     if float(s6) == v:
         cands.append(s6)
-    if exotic:
-        e = f"{v:e}"
-        if float(e) == v:
-            cands.append(e)
-            cands.append(e.upper())
-        if v > 0:
-            cands.append("+" + repr(float(v)))
     if rng is None:
         return cands[0]
     return rng.choice(cands)
@@ -159,6 +167,7 @@ class V3Style:
     split_lines: str = "atoms+bonds"  # which logical lines may be split
     star: bool = False  # encode some bonds via a star atom + ENDPTS
     star_all: bool = False  # bundle ALL bonds of the chosen centre (long ENDPTS lists)
+    empty_bond_block: bool = False  # write BEGIN BOND / END BOND although there is no bond
     header: list | None = None  # three header lines
     trailing_blocks: bool = False
     after_end: str = ""
@@ -167,7 +176,7 @@ class V3Style:
     aamap: bool = False
     final_eol: bool = False
     counts_extra: bool = False
-    max_len: int = 80
+    max_len: int = 79  # physical line length without the newline (80 including it)
 
 
 def _join(tokens, rng, blanks):
@@ -285,9 +294,10 @@ def render_v3000(mol: Mol, style: V3Style | None = None, rng: random.Random | No
     logical.append(("frame", "BEGIN CTAB"))
     n_atom_lines = n + len(star_bonds)
     n_bond_lines = len(plain_bond_ids) + len(star_bonds)
-    counts = f"COUNTS {n_atom_lines} {n_bond_lines} 0 0 0"
+    nsg = 1 if style.trailing_blocks else 0
+    counts = _join(["COUNTS", str(n_atom_lines), str(n_bond_lines), str(nsg), "0", "0"], rng, style.blanks)
     if style.counts_extra:
-        counts = f"COUNTS {n_atom_lines} {n_bond_lines} 0 0 1 REGNO=12"
+        counts = _join(["COUNTS", str(n_atom_lines), str(n_bond_lines), str(nsg), "0", "1", "REGNO=12"], rng, style.blanks)
     logical.append(("counts", counts))
     logical.append(("frame", "BEGIN ATOM"))
     # where to put the star atom line: random position in the atom block
@@ -318,10 +328,14 @@ def render_v3000(mol: Mol, style: V3Style | None = None, rng: random.Random | No
             kws.append("MASS=0"); obs["explicit_default"] = obs.get("explicit_default", 0) + 1
             if sym in ("D", "T"):
                 obs["explicit_default_mass_on_DT"] = obs.get("explicit_default_mass_on_DT", 0) + 1
-        for kw in ATOM_EXTRA_KEYWORDS:
+        used_keys = set()
+        for kw in rng.sample(ATOM_EXTRA_KEYWORDS, len(ATOM_EXTRA_KEYWORDS)):
+            key = kw.split("=")[0]
+            if key in used_keys:
+                continue
             if rng.random() < style.extra_atom_kw / 4:
+                used_keys.add(key)
                 kws.append(kw)
-                key = kw.split("=")[0]
                 obs.setdefault("extra_kw", {})
                 obs["extra_kw"][key] = obs["extra_kw"].get(key, 0) + 1
         if style.kw_shuffle:
@@ -332,7 +346,7 @@ def render_v3000(mol: Mol, style: V3Style | None = None, rng: random.Random | No
         atom_lines.insert(rng.randint(0, len(atom_lines)), line)
     logical.extend(atom_lines)
     logical.append(("frame", "END ATOM"))
-    if n_bond_lines or rng.random() < 0.0:
+    if n_bond_lines or style.empty_bond_block:
         logical.append(("frame", "BEGIN BOND"))
         blines = []
         bidx = 0
@@ -343,7 +357,11 @@ def render_v3000(mol: Mol, style: V3Style | None = None, rng: random.Random | No
             bidx += 1
             file_bidx = style.bond_index_map[bi] if style.bond_index_map else bidx
             toks = [str(file_bidx), str(t), str(index_map[i]), str(index_map[j])]
-            kws = [kw for kw in BOND_EXTRA_KEYWORDS if rng.random() < style.extra_bond_kw / 3]
+            kws, used_keys = [], set()
+            for kw in rng.sample(BOND_EXTRA_KEYWORDS, len(BOND_EXTRA_KEYWORDS)):
+                if kw.split("=")[0] not in used_keys and rng.random() < style.extra_bond_kw / 3:
+                    used_keys.add(kw.split("=")[0])
+                    kws.append(kw)
             for kw in kws:
                 key = "B" + kw.split("=")[0]
                 obs.setdefault("extra_kw", {})
@@ -362,12 +380,18 @@ def render_v3000(mol: Mol, style: V3Style | None = None, rng: random.Random | No
             toks = [str(bidx + 1000 if style.bond_index_map else bidx), str(t)] + pair
             tail = [endpts, rng.choice(["ATTACH=ANY", "ATTACH=ALL"])]
             if rng.random() < 0.3:
-                tail.insert(0, "CFG=1")
-            blines.append(("bond", " ".join(toks + tail)))
+                tail.append("CFG=1")
+            if style.kw_shuffle:
+                rng.shuffle(tail)
+            blines.append(("bond", _join(toks + tail, rng, style.blanks)))
             pos = rng.randint(0, len(blines) - 1)
             blines.insert(pos, blines.pop())
         logical.extend(blines)
         logical.append(("frame", "END BOND"))
+    if style.trailing_blocks and len(mol.bonds) >= 2 and rng.random() < 0.5:
+        i, j, _ = mol.bonds[0]
+        logical.append(("frame", f"LINKNODE 1 3 2 {index_map[i]} {index_map[j]} {index_map[i]} {index_map[j]}"))
+        obs["linknode_lines"] = obs.get("linknode_lines", 0) + 1
     if style.trailing_blocks:
         logical.append(("frame", "BEGIN SGROUP"))
         logical.append(("frame", "1 SUP 1 ATOMS=(1 %d) LABEL=X" % index_map[0]))
@@ -382,7 +406,7 @@ def render_v3000(mol: Mol, style: V3Style | None = None, rng: random.Random | No
     lines.append("M  END")
     text = style.eol.join(lines)
     if style.after_end:
-        text += style.eol + style.after_end
+        text += style.eol + style.after_end.replace("\n", style.eol)
     if style.final_eol:
         text += style.eol
     return text
@@ -414,6 +438,7 @@ class V2Style:
     after_end: str = ""
     final_eol: bool = False
     stereo_fields: bool = False
+    two_line_records: float = 0.0  # probability per slot of a two-line record whose text looks like a property line
 
 
 def v2000_representable(mol: Mol) -> bool:
@@ -426,6 +451,8 @@ def v2000_representable(mol: Mol) -> bool:
                 return False
         if not (-15 <= a.chg <= 15) or not (0 <= a.rad <= 3) or not (0 <= a.mass <= 999):
             return False
+    if any(not (1 <= t <= 8) for _, _, t in mol.bonds):
+        return False
     return True
 
 
@@ -445,18 +472,38 @@ def _prop_lines(tag, entries, per_line, rng, shuffle):
     if shuffle and rng is not None:
         rng.shuffle(entries)
     out = []
-    for k in range(0, len(entries), per_line):
-        chunk = entries[k:k + per_line]
+    k = 0
+    while k < len(entries):
+        size = per_line if (rng is None or per_line > 0) else 8
+        if per_line == 0:
+            size = rng.randint(1, 8)  # ragged: every line its own number of entries
+        chunk = entries[k:k + size]
+        k += size
         out.append(f"M  {tag}{len(chunk):3d}" + "".join(f" {i:3d} {v:3d}" for i, v in chunk))
     return out
 
 
 UNRELATED_V2000 = [
-    ["M  STY  1   1 SUP"], ["M  SAL   1  1   1"], ["M  SMT   1 Ph"], ["M  SBL   1  1   1"],
+    ["M  STY  1   1 SUP", "M  SAL   1  1   1", "M  SMT   1 Ph"], ["M  STY  1   1 GEN"],
     ["A    1", "R-group alias"], ["V    1 some atom value"], ["G    1  1", "Et"], ["M  ALS   1  2 F C   N   "],
-    ["M  RGP  1   1   1"], ["S  SKP  1", "skipped line M  ISO"], ["M  LIN  1   1   1   2"], ["M  SUB  1   1   2"],
-    ["M  UNS  1   1   1"], ["M  RBC  1   1   2"], ["M  ZZC   1 2"],
+    ["M  RGP  1   1   1"], ["S  SKP  1", "skipped line M  ISO"], ["M  LIN  1   1   1   1   2"], ["M  SUB  1   1   2"],
+    ["M  UNS  1   1   1"], ["M  RBC  1   1   2"],
 ]
+
+
+def two_line_records(n_atoms, rng):
+    """Records whose FOLLOW-UP line is free text (atom alias 'A  aaa', group abbreviation 'G  aaappp') or is to be skipped ('S  SKPnnn'),
+    spelled so that the text LOOKS like a property line. A reader must not interpret it."""
+    a = rng.randint(1, n_atoms)
+    fake = rng.choice([f"M  CHG  1 {a:3d}   1", f"M  RAD  1 {a:3d}   2", f"M  ISO  1 {a:3d}  14", f"M  ISO  2 {a:3d}  13 {rng.randint(1, n_atoms):3d}   2"])
+    kind = rng.choice(["alias", "group", "skip1", "skip2"])
+    if kind == "alias":
+        return [f"A  {a:3d}", fake]
+    if kind == "group":
+        return [f"G  {a:3d}{a:3d}", fake]
+    if kind == "skip1":
+        return ["S  SKP  1", fake]
+    return ["S  SKP  2", fake, f"M  CHG  1 {rng.randint(1, n_atoms):3d}  -1"]
 
 
 def render_v2000(mol: Mol, style: V2Style | None = None, rng: random.Random | None = None, obs: dict | None = None) -> str:
@@ -510,8 +557,6 @@ def render_v2000(mol: Mol, style: V2Style | None = None, rng: random.Random | No
                     code = 4
         if mass_in_iso:
             iso_entries.append((k + 1, mass_in_iso))
-        elif sym not in ("D", "T") and rng.random() < style.explicit_zero:
-            iso_entries.append((k + 1, 0)); obs["explicit_default"] = obs.get("explicit_default", 0) + 1
         sss = rng.randint(0, 3) if style.stereo_fields else 0
         hhh = rng.randint(0, 4) if style.stereo_fields else 0
         vvv = rng.choice([0, 0, 1, 15]) if style.stereo_fields else 0
@@ -550,22 +595,36 @@ def render_v2000(mol: Mol, style: V2Style | None = None, rng: random.Random | No
             prop.append(by[k].pop(0))
     else:
         prop = [l for g in groups for l in g]
+    # records are kept as units (a record may span two or three physical lines), extra records go BETWEEN them
+    records = [[l] for l in prop]
     if style.unrelated > 0:
         out = []
-        for l in prop + [None]:
+        for rec in records + [None]:
             while rng.random() < style.unrelated:
                 u = rng.choice(UNRELATED_V2000)
-                out.extend(u)
+                if u[0].startswith("M  SAL") and not mol.bonds:
+                    continue
+                out.append(list(u))
                 obs.setdefault("unrelated", {})
                 obs["unrelated"][u[0][:6]] = obs["unrelated"].get(u[0][:6], 0) + 1
-            if l is not None:
-                out.append(l)
-        prop = out
+            if rec is not None:
+                out.append(rec)
+        records = out
+    if style.two_line_records > 0:
+        out = []
+        for rec in records + [None]:
+            if rng.random() < style.two_line_records:
+                out.append(two_line_records(n, rng))
+                obs["two_line_records_with_property_like_text"] = obs.get("two_line_records_with_property_like_text", 0) + 1
+            if rec is not None:
+                out.append(rec)
+        records = out
+    prop = [l for rec in records for l in rec]
     lines.extend(prop)
     lines.append("M  END")
     text = style.eol.join(lines)
     if style.after_end:
-        text += style.eol + style.after_end
+        text += style.eol + style.after_end.replace("\n", style.eol)
     if style.final_eol:
         text += style.eol
     return text
